@@ -105,18 +105,39 @@ func (s *LineFilterIpReader) hitExpr(expr influxql.Expr) bool {
 	case *influxql.BinaryExpr:
 		switch n.Op {
 		case influxql.EQ:
+			if !s.isIndexedAtom(n) {
+				return true
+			}
 			return s.hitIp(n)
 		case influxql.AND:
 			return s.hitExpr(n.LHS) && s.hitExpr(n.RHS)
 		case influxql.OR:
 			return s.hitExpr(n.LHS) || s.hitExpr(n.RHS)
 		case influxql.IPINRANGE:
+			if !s.isIndexedAtom(n) {
+				return true
+			}
 			return s.hitIpSubnet(n)
 		}
 	default:
 		return true
 	}
 	return true
+}
+
+// isIndexedAtom reports whether the comparison is `field op 'literal'` on the field whose filter
+// this reader opened (the keys of splitMap). The reader evaluates the whole condition: an atom on
+// any other field, or with another kind of literal, is unknown for this filter.
+func (s *LineFilterIpReader) isIndexedAtom(n *influxql.BinaryExpr) bool {
+	ref, ok := n.LHS.(*influxql.VarRef)
+	if !ok {
+		return false
+	}
+	if _, ok = s.splitMap[ref.Val]; !ok {
+		return false
+	}
+	_, ok = n.RHS.(*influxql.StringLiteral)
+	return ok
 }
 
 func (s *LineFilterIpReader) Close() {
@@ -151,7 +172,7 @@ func (s *LineFilterIpReader) hitIpSubnet(n *influxql.BinaryExpr) bool {
 	subnetVal := n.RHS.(*influxql.StringLiteral).Val
 	_, ipNet, err := net.ParseCIDR(subnetVal)
 	if err != nil {
-		return isExist
+		return true
 	}
 	hashValues := make([]uint64, 0)
 	currTokenizer := tokenizer.NewIpTokenizer()
@@ -165,6 +186,10 @@ func (s *LineFilterIpReader) hitIpSubnet(n *influxql.BinaryExpr) bool {
 	blockOffset := s.currentBlockId * logstore.GetConstant(s.version).FilterDataDiskSize
 	bloomFilter := s.bloomCache[blockOffset]
 
+	if len(hashValues) == 0 {
+		// no range filter covers the subnet (prefix shorter than 8 bits): every block may match
+		return true
+	}
 	for _, hash := range hashValues {
 		isExist = true
 		if !bloomFilter.Hit(hash) {
